@@ -80,8 +80,12 @@ static void fillFromSpec(lib::Packet& p, const PacketSpec& s)
     {
         // payload object present, bytes present, but the type is not a valid one (message type or payload type byte 0)
         Bytes b = fillBytes(s.r.seed, 1 + s.r.len % 30);
-        uint32_t t = s.r.seed % 3 == 0 ? 0x0100u : s.r.seed % 3 == 1 ? 0x0020u : 0x0001u;
+        uint32_t t = s.r.seed % 4 == 0 ? 0x0100u : s.r.seed % 4 == 1 ? 0x0020u : s.r.seed % 4 == 2 ? 0x0001u : 0x0120u;
         p.setPayload(lib::Payload(lib::PayloadType(t), b.data(), b.size()));
+        // fourth variant: the type becomes exactly 0x0000 (the library's marker for a rejected payload) in place, after the bytes
+        // are there - a state a copy must reproduce like any other
+        if (s.r.seed % 4 == 3)
+            p.getPayload().setType(lib::PayloadType(lib::PayloadType::invalid));
     }
     else if (s.shape == 4)
     {
@@ -409,6 +413,14 @@ static lib::Payload makeAsamPayload(const PacketSpec& s)
     if (s.shape >= 3)
     {
         Bytes b = fillBytes(s.r.seed, 1 + s.r.len % 30);
+        if (s.r.seed % 3 == 2)
+        {
+            // bytes first, then the type is set to exactly 0x0000 in place
+            lib::Payload pl(lib::PayloadType(0x0120u), b.data(), b.size());
+            pl.setMessageType(lib::CmpHeader::MessageType::undefined);
+            pl.setRawPayloadType(0);
+            return pl;
+        }
         return lib::Payload(lib::PayloadType(s.shape == 3 ? 0x0100u : 0x0020u), b.data(), b.size());
     }
     if (s.shape != 1)
